@@ -862,6 +862,79 @@ def special_perms(rnd, n):
     return [q for q in out if sorted(q) == list(range(n))]
 
 
+# ---- bulk: thousands of permutations of length 11 and more, one cheap definition each ------------------------------------------
+# (a statistic that is a maximum over all subsets is exact for short permutations under many wrong short-cuts; the wrong ones
+# show on a few permutations in ten thousand from some length on.  The library's own holeyness is slow - all 2^n subsets - so
+# it is computed by sixteen interpreters side by side, each with another seed for string hashes.)
+BULK_CHILD = r"""
+import json, sys
+from permuta import Perm
+out = []
+for stat, p in json.load(sys.stdin):
+    try:
+        P = Perm(p)
+        out.append(P.holeyness() if stat == "holeyness" else getattr(P, stat)())
+    except Exception as e:
+        out.append("raise " + type(e).__name__)
+print(json.dumps(out))
+"""
+
+
+def bulk_probes(ctx):
+    import subprocess
+    import sys
+    quick = ctx.tier == "quick"
+    rnd = util.rng(ctx, 1113)
+    jobs = [("holeyness", list(util.rand_perm(rnd, 11))) for _ in range(8000 if quick else 30000)]
+    jobs += [("holeyness", list(util.rand_perm(rnd, 12))) for _ in range(400 if quick else 6000)]
+    nproc = 16
+    procs = []
+    for k in range(nproc):
+        pr = subprocess.Popen([sys.executable, "-c", BULK_CHILD], stdin=subprocess.PIPE, stdout=subprocess.PIPE, stderr=subprocess.PIPE, text=True,
+                              env=util.hash_env(1100 + k))
+        pr.stdin.write(json.dumps(jobs[k::nproc]))
+        pr.stdin.close()
+        pr.stdin = None
+        procs.append(pr)
+    # meanwhile, in this process: the cheap statistics on longer permutations (lengths 11-16)
+    one = []
+    cheap = sorted(set(ONE_INT) - {"holeyness", "stack_sorts", "pop_stack_sorts"})
+    for _ in range(1500 if quick else 12000):
+        q = util.rand_perm(rnd, rnd.choice([11, 11, 12, 12, 13, 14, 16]))
+        P = Perm(q)
+        for stat in rnd.sample(cheap, 3):
+            st_, got_ = util.call(ONE_INT[stat], P)
+            if st_ == "raise" or isinstance(got_, bool) or not isinstance(got_, int):
+                ctx.violation({"kind": "single-statistic", "p": list(q), "stat": stat}, "NoException", "an integer", got_)
+            else:
+                one.append({"op": "One", "stat": stat, "p": list(q), "res": got_})
+        stat = rnd.choice(sorted(ONE_LIST))
+        st_, got_ = util.call(ONE_LIST[stat], P)
+        if st_ == "ok" and shape_ok(LIST_SHAPE.get(stat, "des"), got_):
+            one.append({"op": "OneList", "stat": stat, "p": list(q), "res": got_})
+        else:
+            ctx.violation({"kind": "single-statistic", "p": list(q), "stat": stat}, "StatisticIsItsDefinition", "a listing of the documented shape", repr(got_)[:200])
+    for k, pr in enumerate(procs):
+        out, err = pr.communicate(timeout=1500)
+        if pr.returncode != 0:
+            raise tlc.MachineryFailure("C11: bulk interpreter failed: " + err[-300:])
+        for (stat, q), got_ in zip(jobs[k::nproc], json.loads(out)):
+            if isinstance(got_, int) and not isinstance(got_, bool):
+                one.append({"op": "One", "stat": stat, "p": q, "res": got_})
+            else:
+                ctx.violation({"kind": "single-statistic", "p": q, "stat": stat}, "NoException", "an integer", got_)
+    nch = 16
+    chunks_ = [one[k::nch] for k in range(nch)]
+    with concurrent.futures.ThreadPoolExecutor(max_workers=nch) as ex_:
+        vs_ = list(ex_.map(lambda ch: util.validate_trace(ctx, "Trace_C11b", ch, ntraces=len(ch), timeout=3000), chunks_))
+    for ch, v_ in zip(chunks_, vs_):
+        for b_ in v_["verdict"]:
+            ev_ = ch[b_["i"] - 1]
+            ctx.violation({"kind": "single-statistic", "event": ev_}, "StatisticIsItsDefinition:" + b_["clause"], "value by definition (lib Stats)", ev_["res"])
+    ctx.case(n=len(one))
+    ctx.note("bulk_single_statistic_events_lengths_11_to_16", {"events": len(one), "holeyness_length_11_12": len(jobs)})
+
+
 def single_statistic_probes(ctx, tab):
     """Many cheap questions on permutations of length 7-10: one statistic per event (Trace_C11b), every permutation held as
     ONE object on which each chosen statistic is asked twice (second round in another order, after the others)."""
@@ -1065,6 +1138,7 @@ def run(ctx):
     judge.finish()
     # ---- single statistics on many longer permutations (cheap definitions, one per event) ------------------
     single_statistic_probes(ctx, tab)
+    bulk_probes(ctx)
     ctx.rule = ("TLC enumerates every permutation of the universe with the value of every statistic / listing BY DEFINITION "
                 "(Stats.tla) and every datum (class level, pair of classes, bijection) with the defining identities of the tools; "
                 "each record is replayed through every method / tool of the real code (listings as sorted lists, counts against "
